@@ -164,11 +164,10 @@ Theorem encwrap_forward_image : forall e c batch a id e' c' f,
   erun true e (expand [0%nat] (PStore (map (fun x : entry => snd (fst x)) batch) a id)) = Some e' /\
   start_forward true c batch = (c', OFwd f).
 Proof.
-  intros e c batch a id e' c' f H. unfold ewstep in H. simpl.
+  intros e c batch a id e' c' f H. unfold ewstep in H.
   destruct (enc_start e (map (fun x : entry => snd (fst x)) batch) [a] false) as [e1|] eqn:E1; [|discriminate].
-  destruct (start_forward true c batch) as [c2 r] eqn:E2. destruct r; try discriminate; injection H as <- <- <-.
-  split; [|reflexivity]. unfold enc_start in E1. simpl in E1.
-  destruct (nth_error (map (fun x : entry => snd (fst x)) batch) a); [|discriminate]. injection E1 as <-. reflexivity.
+  destruct (start_forward true c batch) as [c2 r] eqn:E2. destruct r; try discriminate. injection H as <- <- <-.
+  split; [|reflexivity]. cbn [expand map app erun estep]. rewrite E1. reflexivity.
 Qed.
 
 Theorem encwrap_forward_text : forall e c batch e' c' f,
@@ -176,15 +175,17 @@ Theorem encwrap_forward_text : forall e c batch e' c' f,
   erun true e (expand [0%nat] (PText (map (fun x : entry => snd (fst x)) batch))) = Some e' /\
   start_forward true c batch = (c', OFwd f).
 Proof.
-  intros e c batch e' c' f H. unfold ewstep in H. simpl in *.
-  destruct (start_forward true c batch) as [c2 r] eqn:E2. destruct r; try discriminate; injection H as <- <- <-; auto.
+  intros e c batch e' c' f H. unfold ewstep in H.
+  destruct (enc_start e (map (fun x : entry => snd (fst x)) batch) [] false) as [e1|] eqn:E1; [|discriminate].
+  destruct (start_forward true c batch) as [c2 r] eqn:E2. destruct r; try discriminate. injection H as <- <- <-.
+  split; [|reflexivity]. cbn [expand erun estep]. rewrite E1. reflexivity.
 Qed.
 
 Theorem encwrap_remove : forall e c q b en e' c' r,
   ewstep true (e, c) (EWRemove q b en) = Some ((e', c'), r) ->
   erun true e (expand [0%nat] (PRemove b en)) = Some e' /\ remove c q b en = (c', r).
 Proof.
-  intros e c q b en e' c' r H. unfold ewstep in H. destruct (remove c q b en) as [c2 r2]. injection H as <- <- <-. auto.
+  intros e c q b en e' c' r H. unfold ewstep in H. destruct (remove c q b en) as [c2 r2]. injection H as <- <- <-. split; reflexivity.
 Qed.
 
 (** a refused pass: the unwind Remove(seq_k, pos_k, MaxInt32) leaves the encoder entry alone when the batch continues the
@@ -194,7 +195,9 @@ Proof.
   induction batch as [|[[q p] t] r IH]; intros e H; simpl; auto.
   assert (E : enc_remove true e p MaxInt32 = e).
   { unfold enc_remove. specialize (H q p t (or_introl eq_refl)).
-    destruct (Z.leb_spec p (e_pos e)); [lia|]. simpl. rewrite Z.eqb_refl, andb_false_r. reflexivity. }
+    destruct ((p <=? e_pos e) && (e_pos e <? MaxInt32)) eqn:A.
+    - apply andb_true_iff in A. destruct A as [A _]. apply Z.leb_le in A. exfalso. apply (Z.lt_irrefl p). eapply Z.le_lt_trans; eauto.
+    - rewrite Z.eqb_refl. cbn [negb]. rewrite andb_false_r. reflexivity. }
   rewrite E. apply IH. intros q' p' t' Hin. apply (H q' p' t'). right. exact Hin.
 Qed.
 
@@ -206,9 +209,8 @@ Proof.
   intros e c batch img e' c' er H Hf. unfold ewstep in H.
   destruct (enc_start e (map (fun x : entry => snd (fst x)) batch) (match img with Some (at_, _) => [at_] | None => [] end) false) as [e1|] eqn:E1; [|discriminate].
   destruct (start_forward true c batch) as [c2 r] eqn:E2. destruct r; try discriminate.
-  - destruct img as [[? ?]|]; discriminate.
-  - injection H as <- <- <-.
-    assert (H1 : e_cached e1 = e_cached e /\ e_pos e1 = e_pos e /\ e_data e1 = e_data e).
-    { unfold enc_start in E1. destruct img as [[a i]|]; [destruct (nth_error _ _) in E1; [|discriminate]|]; injection E1 as <-; auto. }
-    destruct H1 as [A [B C]]. rewrite enc_unwind_fresh by (intros; rewrite B; eapply Hf; eauto). auto.
+  injection H as <- <- <-.
+  assert (H1 : e_cached e1 = e_cached e /\ e_pos e1 = e_pos e /\ e_data e1 = e_data e).
+  { unfold enc_start in E1. destruct img as [[a i]|]; [destruct (nth_error _ _) in E1; [|discriminate]|]; injection E1 as <-; auto. }
+  destruct H1 as [A [B C]]. rewrite enc_unwind_fresh by (intros; rewrite B; eapply Hf; eauto). auto.
 Qed.
